@@ -25,7 +25,9 @@ EXPLANATION = (
     "an alert by the handlers around its call; the failure can only surface at Finished.")
 NOT_DECIDED = ("timing and memory-access patterns, uniformity of the synthetic length distribution, "
                "correctness of the ct_* arithmetic itself")
-TECHNIQUE = "taint (information-flow) analysis over the syntax tree + finite-domain evaluation of a loop-free decision tree"
+TECHNIQUE = ("taint (information-flow) analysis over the syntax tree + finite-domain evaluation of a decision tree; "
+             "padding verdicts of RSAKey.decrypt by interpreting its source over sample blocks with the checker's own "
+             "AST evaluator (nothing of the library is run)")
 
 DEC = "utils.rsakey:RSAKey.decrypt"
 SAFE_FUNCS = {"enumerate", "next", "zip", "iter", "bytearray", "len", "range", "reversed"}
